@@ -21,6 +21,7 @@ import (
 	"github.com/internetarchive/Zeno/internal/pkg/archiver"
 	"github.com/internetarchive/Zeno/internal/pkg/config"
 	"github.com/internetarchive/Zeno/internal/pkg/postprocessor"
+	"github.com/internetarchive/Zeno/internal/pkg/postprocessor/domainscrawl"
 	"github.com/internetarchive/Zeno/internal/pkg/preprocessor"
 	"github.com/internetarchive/Zeno/pkg/models"
 )
@@ -59,6 +60,9 @@ type Case struct {
 	Body     []byte `json:"body"` // base64 in JSON
 	Link     string `json:"link,omitempty"`
 	Location string `json:"location,omitempty"`
+	// Conf: the operator's configuration the answer meets: "" = the default one (see setup); "dc" = --domains-crawl
+	// active with a domain, a URL and a regular expression (every URL the server names is matched against them)
+	Conf string `json:"conf,omitempty"`
 }
 
 // Outcome of one case. Kind "ok" covers every tolerated behaviour (errors, fewer links).
@@ -107,6 +111,12 @@ func runCase(c *Case) (o Outcome) {
 	if !ok {
 		panic("unknown profile " + c.Profile)
 	}
+	domainscrawl.Reset()
+	if c.Conf == "dc" {
+		if err := domainscrawl.AddElements([]string{"site.example", "http://other.example/dir/", `^https?://re\.example/[a-z]+$`}); err != nil {
+			panic(err)
+		}
+	}
 	// the item as preprocess() hands it to the archiver
 	u := &models.URL{Raw: p.URL}
 	if err := preprocessor.NormalizeURL(u, nil); err != nil {
@@ -138,7 +148,7 @@ func runCase(c *Case) (o Outcome) {
 		Body: io.NopCloser(bytes.NewReader(c.Body))})
 
 	stage = "ProcessBody"
-	if err := archiver.ProcessBody(u, false, false, config.Get().MaxHops, tmpDir); err != nil {
+	if err := archiver.ProcessBody(u, false, domainscrawl.Enabled(), config.Get().MaxHops, tmpDir); err != nil {
 		return Outcome{Kind: "ok", Class: "processbody-error"} // archive(): item failed, nothing else happens
 	}
 	item.SetStatus(models.ItemArchived)
@@ -166,7 +176,7 @@ func runCase(c *Case) (o Outcome) {
 	return Outcome{Kind: "ok",
 		Reached:    (kept && c.Status == 200) || redirect,
 		Nontrivial: len(children)+len(outlinks) > 0,
-		Class: fmt.Sprintf("%s mime=%s body=%v item=%s children=%s outlinks=%s unnormalisable=%s", c.Profile,
+		Class: c.Conf + fmt.Sprintf("%s mime=%s body=%v item=%s children=%s outlinks=%s unnormalisable=%s", c.Profile,
 			mime, kept, item.GetStatus(), bucket(len(children)), bucket(len(outlinks)), bucket(bad))}
 }
 
